@@ -38,7 +38,7 @@ type Mutation { bump: Int  obj: Obj }
 
 /// The tape-decoded adversarial grammar (also used by the libFuzzer target).
 pub fn gen_adversarial(t: &mut Tape, world_tape: &[u8], stats: &mut GenStats) -> Adv {
-    match t.weighted(&[30, 8, 8, 8, 8, 14, 10, 14, 12, 10, 8]) {
+    match t.weighted(&[30, 8, 8, 8, 8, 14, 10, 14, 12, 10, 8, 6]) {
         0 => {
             // fragment-spread cycle of length 1..6
             let len = t.range(1, 6);
@@ -336,6 +336,28 @@ pub fn gen_adversarial(t: &mut Tape, world_tape: &[u8], stats: &mut GenStats) ->
             let q = format!("query Q {{ {} {{ {} }} }}\n", field, inner);
             Adv { kind: "repeated_variant_fragments_nested", schema: BASE_SCHEMA.into(), ext: "graphql", query: q, cycle: None, nontrivial: depth >= 16 }
         }
+        11 => {
+            // a dense cluster of mutually referencing input types (filter inputs of a generated API),
+            // reached from outside: the recursion analysis must stay linear in the number of types
+            let n = t.range(6, 18);
+            let mut schema = String::new();
+            for i in 0..n {
+                let _ = write!(schema, "input Exp{} {{ ", i);
+                for j in 0..n {
+                    if i != j && (t.chance(85) || j == (i + 1) % n) {
+                        let ty = match t.below(6) {
+                            0 => format!("[Exp{}!]", j),
+                            _ => format!("Exp{}", j),
+                        };
+                        let _ = write!(schema, "f{}: {} ", j, ty);
+                    }
+                }
+                schema.push_str("eq: Int }\n");
+            }
+            schema.push_str("input Outer { where: Exp0 limit: Int }\ninput Holder { outer: Outer also: Exp1 }\ntype Query { rows(h: Holder, o: Outer, e: Exp2): Int }\n");
+            let query = (*t.pick(&["query Q($h: Holder) { rows(h: $h) }\n", "query Q($o: Outer!) { rows(o: $o) }\n", "query Q($e: Exp2, $h: Holder) { rows(e: $e, h: $h) }\n"])).to_string();
+            Adv { kind: "dense_input_cluster", schema, ext: "graphql", query, cycle: None, nontrivial: n >= 10 }
+        }
         _ => {
             // valid cases mixed in
             let mut wt = Tape::new(world_tape);
@@ -430,7 +452,7 @@ fn fuzz_campaign(report: &mut Report) {
 }
 
 pub fn run(report: &mut Report, replay: Option<&Value>) {
-    report.rule = "adversarial grammar (tape-decoded): fragment-spread cycles of length 1-6 on objects / interfaces / unions, with and without `__typename`, direct or through fields; input-type cycles incl. non-null ones and @oneOf, also with object-literal default values that omit members on the cycle; selection nesting and type-expression nesting up to 64; 2-3 inline fragments for the same variant at every level of a selection 10-28 deep (input linear in the depth); interfaces without implementors, self-referential unions, dangling names; documents broken by token deletion / duplication, truncated schemas; introspection JSON with members removed or nulled; valid cases mixed in. Every input runs in an isolated worker process (8 MiB stack, like a proc macro). Oracle: the call ends with Ok, Err or a panic carrying a message inside the watchdog; a signal, abort or repeatable silence is a violation; inputs that ended with Err / panic are also issued three times in one fresh process, where every call must terminate. Non-trivial: the input contains a cycle, nesting >= 16, or is syntactically broken; distinct by hash(schema, document).".into();
+    report.rule = "adversarial grammar (tape-decoded): fragment-spread cycles of length 1-6 on objects / interfaces / unions, with and without `__typename`, direct or through fields; input-type cycles incl. non-null ones and @oneOf, dense clusters of 6-18 mutually referencing input types reached from outside, also with object-literal default values that omit members on the cycle; selection nesting and type-expression nesting up to 64; 2-3 inline fragments for the same variant at every level of a selection 10-28 deep (input linear in the depth); interfaces without implementors, self-referential unions, dangling names; documents broken by token deletion / duplication, truncated schemas; introspection JSON with members removed or nulled; valid cases mixed in. Every input runs in an isolated worker process (8 MiB stack, like a proc macro). Oracle: the call ends with Ok, Err or a panic carrying a message inside the watchdog; a signal, abort or repeatable silence is a violation; inputs that ended with Err / panic are also issued three times in one fresh process, where every call must terminate. Non-trivial: the input contains a cycle, nesting >= 16, or is syntactically broken; distinct by hash(schema, document).".into();
     report.assumptions = vec!["a hang is only called after it repeats alone with a 60 s limit".into(), "graphql-parser's own recursion limit (50 brackets) is third-party behaviour: its parse errors are an accepted `Err`".into()];
     if let Some(v) = replay {
         replay_one(report, v);
